@@ -27,6 +27,27 @@ CHECKS = {
  "C20": dict(level="exploration", design="3/C20", technique="reference-model monitor with recording parent View and recording child widgets; exact rational share oracle",
     text="Seeded ViewPort geometries/op sequences checked call by call at the recording parent (mapping, clipping, offset limits in inside-before => inside-after form) and seeded BoxLayouts (<= 8 children, nested) checked from the ViewPorts handed to children and from what a full Draw paints on the root: order, disjointness, containment, preferred extent, exact surplus shares.",
     note="The rectangle of a ViewPort is what GetPhysical/Size report; nested layouts are not re-oriented after creation (the statement does not say when a child's changed preferred size must be picked up)."),
+ "C01": dict(level="exploration", design="3/C01", technique="lock-step differential monitor: real terminfo screen over an instrumented fake tty, every output byte interpreted by a reference terminal emulator, compared with a shadow model after every Show/Sync/resize",
+    text="Seeded draw histories (incl. external corruption + Sync, silent and callback resizes, locks, cursor ops) on all 45 ECMA-48-family entries x {as registered, 24-bit strings added} plus a TCELL_TRUECOLOR=disable pass; after each redraw the full emulator grid (rune, combining, width, colours with nearest-palette sets, attributes, underline style/colour, hyperlink) and cursor are compared with the model.",
+    note="Assumes A1-A4 (deferred wrap, agreed widths, sun FF, no padding delays); the emulator and colour references are the harness's own; histories are sampled."),
+ "C04": dict(level="exploration", design="3/C04", technique="register monitor on the reference terminal at Fini/Suspend/Resume boundaries plus an online call-order automaton in the fake Tty, with a resize-during-Drain fault",
+    text="Seeded mode/drawing histories with Suspend/Resume cycles ending in Fini or Suspend, on 45 entries x TCELL_ALTSCREEN {unset, disable} x both Drain personalities; at every shutdown return the emulator's registers are compared with the reset vector, after Resume with the application's enabled modes; every Tty call is checked against the contract automaton.",
+    note="Only capabilities an entry has are demanded; hyperlink register excluded from the reset vector; between Suspend and Resume only mode requests are issued (drawing then is C06's)."),
+ "C09": dict(level="exploration", design="3/C09", technique="strict ECMA-48 tokenizer + residue rule over every byte of draw histories (UTF-8 and an 8-bit locale) and a twin-screen injection sweep over code points",
+    text="All output of seeded draw histories on 45 entries goes through a strict tokenizer (numeric CSI parameters, terminated strings, no control bytes as payload, no % or $< residue); every must-blank rune via SetContent/SetCell/Fill at four columns in three locales must produce bytes identical to a blank's; every other swept rune's output must tokenize. Quick sweeps all must-blank runes and a stride of the rest, thorough every code point.",
+    note="Generated content never contains % or $; must-blank is a lower bound; the tokenizer is the harness's own."),
+ "C11": dict(level="exploration", design="3/C11", technique="round-trip monitor: harness encoder -> real parser (hook and real pipeline under back-pressure) -> rune events; exhaustive per charset",
+    text="Every Unicode scalar in UTF-8 and every round-tripping code point of 22 stateless legacy charsets, whole and split at every byte boundary; seeded strings under cuts; paste brackets and focus reports on all entries; text through the real inputLoop/mainLoop with a stalled poller.",
+    note="x/text codecs define the charsets; ISO-2022-JP and HZ excluded by the statement."),
+ "C12": dict(level="exploration", design="3/C12", technique="independent xterm mouse-protocol decoder vs the real parser; exhaustive code/coordinate sweeps, stateful sweeps and seeded histories",
+    text="SGR codes 0..255 x finals x boundary coordinates on fresh state and after a press (with a following motion report); legacy X11 reports over all button bytes and a coordinate grid (thorough: all 224^2); 8-bit CSI in 8-bit and UTF-8 locales; seeded press/motion/wheel/release histories against a held-button model.",
+    note="Button identity compared for codes 0..127 except wheel left/right; three-valued after reports the protocol never generates."),
+ "C13": dict(level="exploration", design="3/C13", technique="write-stamp monitor on the reference terminal: which cells each Show() wrote, against the set the shadow model allows",
+    text="Same histories as C01 (incl. identical re-stores via SetContent/SetCell); per Show the cells that received text must lie in the allowed set (changed since previous Show, wide-rune neighbours, unlocked cells, the bottom-right helper cells); locked cells never written; unlocked cells repainted; idle Show writes nothing.",
+    note="'Changed' means set to something different at any time since the previous Show; assumptions of C01."),
+ "C14": dict(level="exploration", design="3/C14", technique="exhaustive registry enumeration through the verif hook with strict reference interpreter, reference SGR interpreter and all ordered lookup pairs against a pristine snapshot",
+    text="Every name/alias resolves with cursor addressing; every parameterized field passes strict evaluation with the parameters the library passes; colour count vs strings (every index interpreted); key prefix freedom; static strings tokenize; -256color/-truecolor synthesis vs base + standard strings; unknown names; COLORTERM/TCELL_TRUECOLOR matrix incl. screen-level effect; every ordered pair of lookups over ~300 names compared with a fresh lookup.",
+    note="-256color synthesis only demanded for bases with a -color/-88color entry; other environments use a third of the universe as first lookups."),
 }
 PENDING = {}
 
